@@ -899,8 +899,10 @@ MANIFEST = dict(
         "in feat_deltas each dimension argument is resolved and range-checked against the rank of the tensor it "
         "indexes (input rank for time_dim; output rank, one more when stacking, for dim). "
         "Necessary (and, for partition invariance, sufficient up to floating point) structural clauses of C18; delta "
-        "filter values and floating-point rounding are numerical and not decided."),
+        "filter values and floating-point rounding are numerical and not decided. accumulate / store are also interpreted over exact values "
+        "(fresh object, 0-2 batches, Bessel on / off, statistics kept / deleted; in-place updates shared between aliases, exact roots): 32 rows "
+        "against the definitions; the symbolic formulas are the fallback."),
     level_note="Trusted: python ast; real-number idealisation of double-precision accumulation.",
-    technique="static analysis: additive-homomorphism (monoid) effect rule, rational evaluation of the stored statistics per bessel mode, symbolic exponent-matrix derivation, forwarding completeness, partial evaluation + rank-term comparison; interpretation of the return computation over exact values compared with the recursion for discounts below, at and above one",
+    technique="static analysis: additive-homomorphism (monoid) effect rule, rational evaluation of the stored statistics per bessel mode, symbolic exponent-matrix derivation, forwarding completeness, partial evaluation + rank-term comparison; interpretation of the return computation over exact values compared with the recursion for discounts below, at and above one; accumulate / store interpreted the same way (in-place tensor semantics, exact roots) against the definitions",
     design_ref="DESIGN.md section 4 C18",
 )
